@@ -136,9 +136,9 @@ Definition stalled3_run :=
   run_case stalled3_cfg 10240 [pub 1 [payload 1 40]; pub 27 stalled3_msgs] ([0;0;0] ++ repeat 1 400)%nat [].
 
 Theorem C02_stalled3_witness :
-  KnownClass_stalled3 (fst (fst stalled3_run)) = true /\
+  KnownClass_stalled3 (fst (fst (fst stalled3_run))) = true /\
   holds_C02 stalled3_cfg [[payload 1 40]; stalled3_msgs] stalled3_run = false /\
-  nth 0 (snd (fst stalled3_run)) (Done, []) = (Panicked, [Panic]).
+  nth 0 (snd (fst (fst stalled3_run))) (Done, []) = (Panicked, [Panic]).
 Proof. vm_compute. repeat split; reflexivity. Qed.
 Print Assumptions C02_stalled3_witness.
 
